@@ -443,7 +443,7 @@ def entry_variants(eng: Engine, c: Contract, fn: ast.FunctionDef):
                 nxt.append((dict(pm, **{name: v}), f2, tag + "[%s!=None]" % name))
             elif ty.kind == "py":
                 for val in ty.args:
-                    nxt.append((dict(pm, **{name: VPy(val)}), facts, tag + "[%s=%r]" % (name, val)))
+                    nxt.append((dict(pm, **{name: (VNone() if val is None else VPy(val))}), facts, tag + "[%s=%r]" % (name, val)))
             else:
                 f2 = list(facts)
                 v = fresh(eng.S, ty, name, f2)
